@@ -7,6 +7,7 @@ EXACT_ITERS = 1000
 FACTORED_ITERS = 3000
 FINAL_ITERS = 30000
 CYCLE_KEY = 'bounded:disjoint-cliques-reach-exact-optimum:period-2-cycle'
+LAST_NOT_BEST_KEY = 'fit-no-worse-than-uniform:last-iterate-not-best'
 ESCALATED_ITERS = 6000
 
 
@@ -156,7 +157,9 @@ class C18(Prop):
         # the recorded known finding (period-2 cycle of mirror_descent_auto), so that every run exercises and reports it
         known = dict(kind='disjoint-exact', attrs=A[:3], shape=[2, 2, 3], cliques=ac.jl([('a',), ('b', 'c')]), iters=EXACT_ITERS, total=1000.0, N=1000,
                      seed=1049956192, sigmas=[0.5, 1.5], qkinds=['eye', 'dense'], oracles=['pairwise', 'convex', 'approx'], tight=True)
-        return _interleave([known], gen_slow, dis, gen)
+        known2 = dict(kind='general', attrs=A[:4], shape=[2, 2, 2, 3], cliques=ac.jl(ac.all_pairs(4)), oracle='pairwise', iters=300, total=1.0, N=1,
+                      seed=104503663, sigmas=[0.1, 0.1], qkinds=['eye', 'eye', 'sparse'])
+        return _interleave([known, known2], gen_slow, dis, gen)
 
     def nontrivial(self, case):
         return len(case['cliques']) >= 2
@@ -204,7 +207,30 @@ class C18(Prop):
             if bad:
                 continue
             L = ac.l2_loss(tabs, meas)
-            out.append(('fit-no-worse-than-uniform' + tag, L <= L0 * (1 + 1e-9) + 1e-9, dict(loss=L, uniform_loss=L0, iters=case['iters'], oracle=oracle)))
+            fit_ok = L <= L0 * (1 + 1e-9) + 1e-9
+            fit_det = dict(loss=L, uniform_loss=L0, iters=case['iters'], oracle=oracle)
+            if not fit_ok and case['iters'] >= 10:
+                # diagnostic for the finding key: was an earlier iterate no worse than uniform (the estimator hands back its last
+                # iterate without comparing it with anything)?
+                traj = []
+
+                def watch(mu):
+                    try:
+                        traj.append(ac.l2_loss({cl: np.asarray(mu[cl].datavector(flatten=False), dtype=float) for _, _, _, cl in meas if cl in mu}, meas))
+                    except Exception:
+                        pass
+                try:
+                    from mbi import LocalInference
+                    np.random.seed(case['seed'] % (1 << 31))
+                    LocalInference(dom, marginal_oracle=oracle, iters=case['iters']).estimate(
+                        [(Q, y.copy(), s, cl) for Q, y, s, cl in meas], total=case['total'], callback=watch)
+                except Exception:
+                    traj = []
+                if traj:
+                    best = float(min(traj))
+                    fit_det.update(best_iterate_loss=best, iterates_seen=len(traj), last_iterates=[float(x) for x in traj[-4:]],
+                                   last_iterate_not_best=bool(best <= L0 * (1 + 1e-9) + 1e-9))
+            out.append(('fit-no-worse-than-uniform' + tag, fit_ok, fit_det))
             if oracle == 'convex':
                 # overlap within the tolerance the estimator enforces (mean L1 parent/child disagreement < 1)
                 mg = {tuple(r): ac.table(model.marginals[r], r)[1] for r in model.cliques}
@@ -302,6 +328,8 @@ class C18(Prop):
         clause = clause.split('[')[0]
         if clause == 'fit-no-worse-than-uniform' and case.get('iters', 0) < 10:
             return FEW_ITERS_KEY
+        if clause == 'fit-no-worse-than-uniform' and isinstance(detail, dict) and detail.get('last_iterate_not_best'):
+            return LAST_NOT_BEST_KEY
         if clause == 'disjoint-cliques-reach-exact-optimum' and isinstance(detail, dict) and detail.get('period_2_cycle'):
             return CYCLE_KEY
         return 'bounded:%s' % clause
